@@ -8,6 +8,7 @@ import (
 	"os/exec"
 	"path/filepath"
 	"regexp"
+	"runtime"
 	"sort"
 	"strconv"
 	"strings"
@@ -170,7 +171,7 @@ func init() {
 	vx.Register(&vx.Prop{
 		ID:    "C09",
 		Level: "model_checking",
-		Rule: "schedule exploration with a cooperative scheduler (one goroutine runs at a time; scheduling points = every Read / Write the library performs on the harness-owned readers and writers, with reads cut at record boundaries so that every record's add to the File is its own step; the decoding calls are explored again with one-byte reads, i.e. scheduling points inside a record's parsing): 2 threads x 1 call each for every ordered pair of the 16 pool calls, explored without preemption bound; 3 threads and 2 calls per thread on selected calls with preemption bound 2 (thorough 3). Oracle: every thread's result equals its solo result; no deadlock; replay of a schedule reproduces the same trace. " +
+		Rule: "schedule exploration with a cooperative scheduler (one goroutine runs at a time; scheduling points = every Read / Write the library performs on the harness-owned readers and writers, with reads cut at record boundaries so that every record's add to the File is its own step; the decoding calls are explored again with one-byte reads, i.e. scheduling points inside a record's parsing): 2 threads x 1 call each for every unordered pair of the 16 pool calls with preemption bound 2 (quick) / 4 (thorough), the smallest pairs without bound; 3 threads and 2 calls per thread on selected calls with preemption bound 2 (thorough 3). Oracle: every thread's result equals its solo result; no deadlock; replay of a schedule reproduces the same trace. " +
 			"Then a separate free-running pass of the same bodies under the Go race detector (8 goroutines, start barrier, repeated rounds); every report is classified by the functions on its stacks. states = distinct global interleavings (traces); transitions = scheduling decisions; traces = executions",
 		Assumptions: []string{"sequentially consistent interleavings at Read/Write granularity; finer-grained interleavings and memory-model effects are left to the free-running race-detector pass, which samples", "accumulated distances are attributed to the listed finding only when the shadow accumulator, fed in the explored interleaving order, predicts them exactly"},
 		Run:         runC09,
@@ -260,6 +261,7 @@ func c09Execute(threadOps [][]int, schedule []int) (string, string, *schedResult
 }
 
 func runC09(w *vx.W) {
+	runtime.GOMAXPROCS(1) // exactly one goroutine runs at a time anyway; avoids cross-P hand-off cost
 	pool := opPool()
 	n := len(pool)
 	c09SoloResults()
@@ -329,8 +331,9 @@ func runC09(w *vx.W) {
 		explore([][]int{{11}, {11}}, -1, "pairs-unbounded")
 	}
 	// all ordered pairs
+	// (unordered pairs: the exploration covers every interleaving, so {a},{b} and {b},{a} are the same scenario)
 	for a := 0; a < n; a++ {
-		for b := 0; b < n; b++ {
+		for b := a; b < n; b++ {
 			k++
 			if !w.Mine(k) {
 				continue
